@@ -6,6 +6,11 @@ case: {corpus_names: true} -> names of the shipped tests/annet/test_patch sample
        deploying: text | None (= shipped rulebook of the hardware), combos: [[do_commit, do_finalize], ...],
        atoms: [hw flag paths], opaque: [python source of opaque atoms]}
  or   {render: vendor}  -> the Mako-rendered shipped deploy rulebook text and what it compiles to
+ or   {dlg: deploy rulebook text (one top-level rule with dialog:/ignore: children), vendor, contents: [str]}
+        -> {dialogs: [[question text, answer, send_nl]], ignore: [text], runs: [{content, answer | None, hits, ign}]}
+           from the compiled rule's MakeMessageMatcher objects and annet.deploy.RulebookQuestionHandler
+ optional key `unmodelled`: [rule rows]: adds `touches_unmodelled` = some row of some command path is matched by
+        the compiled regexp of one of these rules (the model rulebook does not contain them)
 out : {patch, lines, paths, paths0, flags, opq, runs: [{dc, df, common: [before, after] | None, ap_env, cmds | err}]}
 """
 import functools
@@ -98,6 +103,14 @@ def rules_json(rules):
     return out
 
 
+def pat_of_id(rid):
+    """the rule row of a compiled rule id (as harness/props/c09.py:pat_of_id)"""
+    import re
+    if "%" in rid and re.findall(r"\s%([a-zA-Z_]\w*)(?:=([^\s]*))?", rid):
+        rid = rid[:rid.index("%")]
+    return re.sub(r"\s+", " ", rid.strip())
+
+
 CORPUS = {}
 
 
@@ -135,6 +148,22 @@ def one(case):
                 case["_patch"] = corpus_patch(smp, HardwareView(smp["hw"], ""))
             except Exception as e:  # noqa
                 return {"skip": "corpus sample does not build a patch: " + type(e).__name__}
+        if "dlg" in case:
+            rules = compile_deploying_text(case["dlg"], case["vendor"])
+            attrs = next(iter(rules.values()))["attrs"]
+            handler = deploy.RulebookQuestionHandler(attrs["dialogs"])
+            res["dialogs"] = [[m._text, a.text, bool(a.send_nl)] for m, a in attrs["dialogs"].items()]
+            res["ignore"] = [m._text for m in attrs["ignore"]]
+            runs = []
+            for content in case["contents"]:
+                raw = content.encode()
+                ans = handler(None, None, raw)
+                c = raw.strip().decode()
+                runs.append({"content": content, "answer": None if ans is None else ans.cmd,
+                             "hits": [bool(m(c)) for m in attrs["dialogs"]],
+                             "ign": [bool(m(c)) for m in attrs["ignore"]]})
+            res["runs"] = runs
+            return res
         if "render" in case:
             vendor = case["render"]
             hw = HardwareView(case.get("hw") or HW[vendor], "")
@@ -183,6 +212,16 @@ def one(case):
         paths0 = fmt0.cmd_paths(p)
         res["paths"] = [[list(k), dict(v or {})] for k, v in paths.items()]
         res["paths0"] = [[list(k), dict(v or {})] for k, v in paths0.items()]
+        if case.get("unmodelled"):
+            want = set(case["unmodelled"])
+
+            def regs(rules):
+                for rid, r in rules.items():
+                    if pat_of_id(rid) in want:
+                        yield r["attrs"]["regexp"]
+                    yield from regs(r["children"])
+            rx = list(regs(rb["deploying"]))
+            res["touches_unmodelled"] = any(x.match(row) for k in paths0 for row in k for x in rx)
         res["flags"] = {a: bool(functools.reduce(getattr, a.split("."), hw)) for a in case.get("atoms", [])}
         res["opq"] = {s: bool(eval(s, {"hw": hw, "os": os})) for s in case.get("opaque", [])}  # noqa: S307
         runs = []
